@@ -53,9 +53,14 @@ Definition agree (c : case) : bool :=
 (* the specification evaluated on the implementation's observed result:
    accepted <-> the documented constraints hold; accepted -> exactly the documented defaults
    (and, redundantly by C02_cfg_wf, every accepted interface is well formed) *)
+(* [debug] flags are only specified when an address is set (otherwise no debug server exists) *)
+Definition config_as_documented (i d : config) : bool :=
+  list_eqb iface_eqb (fst i) (fst d) &&
+  (if N.eqb (dbg_address (snd d)) 0 then N.eqb (dbg_address (snd i)) 0 else debug_eqb (snd i) (snd d)).
+
 Definition holds (c : case) : bool :=
   match c_impl c with
-  | Some i => Accepts_b (c_raw c) && config_eqb i (defaults (c_raw c)) && forallb cfg_wfb (fst i)
+  | Some i => Accepts_b (c_raw c) && config_as_documented i (defaults (c_raw c)) && forallb cfg_wfb (fst i)
   | None => negb (Accepts_b (c_raw c))
   end.
 
